@@ -578,11 +578,307 @@ pub fn index_map_family(run: &Run) {
     run.observe_many(&a, &a);
 }
 
+
+// ---------------------------------------------------------------------------
+// (c5) avar version 2 with large deltas: v + delta sweeps across -2.5 .. 2.5, i.e. past the range of
+// F2Dot14 itself. Reference: clamp(v + sum delta_r * tent_r, -1, 1) in exact rationals, where v are the
+// coordinates after fvar normalisation and the avar 1 maps (computed with the separately verified
+// VariationAxisRecord::normalize / SegmentMaps::apply) and rows/regions are read with read-fonts.
+// ---------------------------------------------------------------------------
+
+fn gcd(a: i128, b: i128) -> i128 {
+    if b == 0 {
+        a.abs().max(1)
+    } else {
+        gcd(b, a % b)
+    }
+}
+
+/// specification tent of one region over n axes at `loc` (F2Dot14 bits), as a reduced fraction
+fn tent_n(region: &[(i16, i16, i16)], loc: &[i16]) -> (i128, i128) {
+    let (mut num, mut den) = (1i128, 1i128);
+    for (axis, (s, p, e)) in region.iter().enumerate() {
+        let (s, p, e, c) = (*s as i128, *p as i128, *e as i128, loc.get(axis).copied().unwrap_or(0) as i128);
+        if s > p || p > e || (s < 0 && e > 0 && p != 0) || p == 0 {
+            continue;
+        }
+        if c < s || c > e {
+            return (0, 1);
+        }
+        if c == p {
+            continue;
+        }
+        if c < p {
+            num *= c - s;
+            den *= p - s;
+        } else {
+            num *= e - c;
+            den *= e - p;
+        }
+        let g = gcd(num, den);
+        num /= g;
+        den /= g;
+    }
+    (num, den)
+}
+
+/// Check `Fvar::user_to_normalized` on an avar 2 font at one user location. Err = (identity, details)
+fn check_avar2_location(font: &FontRef, user: &[i32], what: &str) -> Result<(Vec<i16>, bool), (String, String)> {
+    let fvar = font.fvar().map_err(|e| ("harness: fvar".to_string(), format!("{e}")))?;
+    let avar = font.avar().map_err(|e| ("harness: avar".to_string(), format!("{e}")))?;
+    let axes = fvar.axes().map_err(|e| ("harness: axes".to_string(), format!("{e}")))?;
+    let n = axes.len();
+    // coordinates before the avar 2 step
+    let maps: Vec<_> = avar.axis_segment_maps().iter().collect();
+    let mut pre: Vec<i16> = vec![];
+    for (i, axis) in axes.iter().enumerate() {
+        let c = axis.normalize(Fixed::from_bits(user[i]));
+        let c = match maps.get(i) {
+            Some(Ok(m)) => m.apply(c),
+            _ => c,
+        };
+        pre.push(c.to_f2dot14().to_bits());
+    }
+    // implementation
+    let mut got = vec![F2Dot14::ZERO; n];
+    let settings: Vec<(Tag, Fixed)> = axes.iter().enumerate().map(|(i, a)| (a.axis_tag(), Fixed::from_bits(user[i]))).collect();
+    fvar.user_to_normalized(Some(&avar), settings, &mut got);
+    let got: Vec<i16> = got.iter().map(|c| c.to_bits()).collect();
+    // reference
+    let store = match avar.var_store() {
+        Some(Ok(s)) => s,
+        _ => return Err(("harness: avar 2 store missing".to_string(), String::new())),
+    };
+    let regions: Vec<Vec<(i16, i16, i16)>> = store
+        .variation_region_list()
+        .map_err(|e| ("harness: region list".to_string(), format!("{e}")))?
+        .variation_regions()
+        .iter()
+        .map(|r| r.map(|r| r.region_axes().iter().map(|a| (a.start_coord().to_bits(), a.peak_coord().to_bits(), a.end_coord().to_bits())).collect()))
+        .collect::<Result<_, _>>()
+        .map_err(|e| ("harness: regions".to_string(), format!("{e}")))?;
+    let index_map = avar.axis_index_map();
+    let mut past_range = false;
+    for i in 0..n {
+        let ix = match &index_map {
+            Some(Ok(m)) => match m.get(i as u32) {
+                Ok(ix) => ix,
+                Err(_) => continue,
+            },
+            _ => read_fonts::tables::variations::DeltaSetIndex { outer: 0, inner: i as u16 },
+        };
+        // exact sum of the row, as a fraction of F2Dot14 units
+        let (mut sn, mut sd) = (0i128, 1i128);
+        if let Some(Ok(data)) = store.item_variation_data().get(ix.outer as usize) {
+            if ix.inner < data.item_count() {
+                let idx = data.region_indexes();
+                for (col, delta) in data.delta_set(ix.inner).enumerate() {
+                    let Some(ri) = idx.get(col) else { continue };
+                    let Some(region) = regions.get(ri.get() as usize) else { continue };
+                    let (tn, td) = tent_n(region, &pre);
+                    sn = sn * td + delta as i128 * tn * sd;
+                    sd *= td;
+                    let g = gcd(sn, sd);
+                    sn /= g;
+                    sd /= g;
+                }
+            }
+        }
+        // x = pre + sum; expected = clamp(x) within one unit (float evaluation, final rounding)
+        let xn = pre[i] as i128 * sd + sn;
+        if (xn.abs() as f64) / (sd as f64) >= 32768.0 - 1.0 {
+            past_range = true;
+        }
+        let lo = (xn.div_euclid(sd)).clamp(-16384, 16384);
+        let hi = ((xn + sd - 1).div_euclid(sd)).clamp(-16384, 16384);
+        let g = got[i] as i128;
+        if g < lo - 1 || g > hi + 1 {
+            let id = if g.abs() > 16384 {
+                "Fvar::user_to_normalized leaves an avar 2 coordinate outside [-1, 1]".to_string()
+            } else if (lo == 16384 && g < 0) || (hi == -16384 && g > 0) {
+                "Fvar::user_to_normalized: an avar 2 coordinate past the end of the range clamps to the wrong end".to_string()
+            } else {
+                "Fvar::user_to_normalized differs from the exact avar 2 result".to_string()
+            };
+            return Err((
+                id,
+                format!("{what}: user {:?} -> coordinates before avar 2 {:?}; axis {i}: exact v + delta = {:.5}, expected {:.5}, got {:.5} (all coordinates {:?})", user.iter().map(|u| *u as f64 / 65536.0).collect::<Vec<_>>(), pre, xn as f64 / sd as f64 / 16384.0, lo as f64 / 16384.0, g as f64 / 16384.0, got),
+            ));
+        }
+    }
+    Ok((got, past_range))
+}
+
+/// synthesised 2-axis font: avar 2 adds to each axis d_pos * tent(other axis in (0,1,1)) + d_neg * tent(other in (-1,-1,0))
+fn avar2_font(d_pos: i32, d_neg: i32) -> Vec<u8> {
+    use write_fonts::tables::avar::{Avar, AxisValueMap, SegmentMaps};
+    use write_fonts::tables::fvar::{AxisInstanceArrays, Fvar, VariationAxisRecord};
+    let fx = |v: i32| Fixed::from_bits(v << 16);
+    let fvar = Fvar::new(AxisInstanceArrays::new(
+        vec![VariationAxisRecord::new(TAG_A, fx(100), fx(400), fx(900), 0, NameId::new(256)), VariationAxisRecord::new(TAG_B, fx(50), fx(100), fx(200), 0, NameId::new(257))],
+        vec![],
+    ));
+    let ident = || SegmentMaps::new([(-ONE, -ONE), (0, 0), (ONE, ONE)].iter().map(|(f, t)| AxisValueMap::new(f214(*f), f214(*t))).collect());
+    let mut avar = Avar::new(vec![ident(), ident()]);
+    let zero = || RegionAxisCoordinates::new(f214(0), f214(0), f214(0));
+    let pos = || RegionAxisCoordinates::new(f214(0), f214(ONE), f214(ONE));
+    let neg = || RegionAxisCoordinates::new(f214(-ONE), f214(-ONE), f214(0));
+    let mut sb = VariationStoreBuilder::new_with_implicit_indices(2);
+    // row 0: axis A moved by axis B; row 1: axis B moved by axis A
+    sb.add_deltas(vec![(VariationRegion::new(vec![zero(), pos()]), d_pos), (VariationRegion::new(vec![zero(), neg()]), d_neg)]);
+    sb.add_deltas(vec![(VariationRegion::new(vec![pos(), zero()]), d_pos), (VariationRegion::new(vec![neg(), zero()]), d_neg)]);
+    let (store, _) = sb.build();
+    avar.var_store = Some(store).into();
+    avar.axis_index_map = Some([0u32, 1u32].into_iter().collect::<DeltaSetIndexMap>()).into();
+    let mut b = write_fonts::FontBuilder::new();
+    b.add_table(&fvar).unwrap();
+    b.add_table(&avar).unwrap();
+    b.build()
+}
+
+pub fn avar2_extremes(run: &Run) {
+    use rayon::prelude::*;
+    // deltas in F2Dot14 units: 1.0 = 16384. With v in {-1, -0.5, 0, 0.5, 1} the sum v + delta reaches
+    // +-1, +-1.99994, +-2, +-2.5 and beyond
+    let deltas: Vec<i32> = vec![0, 16383, 16384, 16385, 24576, 32767, 32768, 49152, 57344, -16383, -16384, -16385, -24576, -32767, -32768, -49152, -57344];
+    let ua: Vec<i32> = vec![100, 250, 400, 650, 900];
+    let ub: Vec<i32> = vec![50, 75, 100, 150, 200];
+    run.bound(
+        "c5.avar2_extremes",
+        json!({"synthesised": {"axes": [["wght", 100, 400, 900], ["wdth", 50, 100, 200]], "store": "each axis += d_pos * tent(other in (0,1,1)) + d_neg * tent(other in (-1,-1,0))", "d_pos_d_neg_f2dot14_units": deltas,
+               "user_values": [ua, ub], "monotone": "in each user coordinate, the other fixed"},
+               "fixture": {"font": "font-test-data/test_data/ttf/avar2checker.ttf", "user_values_per_axis": "min, (min+default)/2, default, (default+max)/2, max (min/default/max when more than 3 axes), all combinations"},
+               "reference": "clamp(v + sum delta_r * tent_r, -1, 1), tolerance one F2Dot14 unit"}),
+    );
+    let all = std::sync::Mutex::new(HashSet::new());
+    let non = std::sync::Mutex::new(HashSet::new());
+    let past = std::sync::atomic::AtomicU64::new(0);
+    let evals = std::sync::atomic::AtomicU64::new(0);
+    let pairs: Vec<(i32, i32)> = deltas.iter().flat_map(|p| deltas.iter().map(move |n| (*p, *n))).collect();
+    pairs.par_iter().for_each(|(dp, dn)| {
+        let bytes = avar2_font(*dp, *dn);
+        let Ok(font) = FontRef::new(&bytes) else {
+            run.machinery_error("avar 2 font does not parse");
+            return;
+        };
+        let (mut la, mut ln) = (HashSet::new(), HashSet::new());
+        let mut grid: Vec<Vec<Vec<i16>>> = vec![vec![vec![]; ub.len()]; ua.len()];
+        for (ia, a) in ua.iter().enumerate() {
+            for (ib, b) in ub.iter().enumerate() {
+                evals.fetch_add(1, std::sync::atomic::Ordering::Relaxed);
+                let user = [a << 16, b << 16];
+                let case = json!({"kind":"norm_avar2_extremes","d_pos":dp,"d_neg":dn,"user":[a,b]});
+                match guard(|| check_avar2_location(&font, &user, &format!("synthesised avar 2 font (d_pos {dp}, d_neg {dn})"))) {
+                    Ok(Ok((got, pr))) => {
+                        if pr {
+                            past.fetch_add(1, std::sync::atomic::Ordering::Relaxed);
+                        }
+                        let d = digest_of(&("avar2x", dp, dn, a, b, &got));
+                        la.insert(d);
+                        if got.iter().any(|c| *c != 0) {
+                            ln.insert(d);
+                        }
+                        grid[ia][ib] = got;
+                    }
+                    Ok(Err((id, details))) => {
+                        if id.starts_with("harness") {
+                            run.machinery_error(&format!("{id}: {details}"));
+                        } else {
+                            run.violation(&id, &details, case)
+                        }
+                    }
+                    Err(p) => run.violation(&format!("Fvar::user_to_normalized panic: {}", p.kind()), &p.message, case),
+                }
+            }
+        }
+        // monotone: axis A's coordinate in user A (B fixed), axis B's in user B (A fixed)
+        for ib in 0..ub.len() {
+            for ia in 1..ua.len() {
+                if let (Some(x), Some(y)) = (grid[ia - 1][ib].first(), grid[ia][ib].first()) {
+                    if y < x {
+                        run.violation("Fvar::user_to_normalized with avar 2 is not monotone in the axis' own user coordinate", &format!("d_pos {dp} d_neg {dn}: wght {} -> {}, wght {} -> {} at wdth {}", ua[ia - 1], x, ua[ia], y, ub[ib]), json!({"kind":"norm_avar2_extremes","d_pos":dp,"d_neg":dn,"user":[ua[ia], ub[ib]]}));
+                    }
+                }
+            }
+        }
+        for ia in 0..ua.len() {
+            for ib in 1..ub.len() {
+                if let (Some(x), Some(y)) = (grid[ia][ib - 1].get(1), grid[ia][ib].get(1)) {
+                    if y < x {
+                        run.violation("Fvar::user_to_normalized with avar 2 is not monotone in the axis' own user coordinate", &format!("d_pos {dp} d_neg {dn}: wdth {} -> {}, wdth {} -> {} at wght {}", ub[ib - 1], x, ub[ib], y, ua[ia]), json!({"kind":"norm_avar2_extremes","d_pos":dp,"d_neg":dn,"user":[ua[ia], ub[ib]]}));
+                    }
+                }
+            }
+        }
+        all.lock().unwrap().extend(la);
+        non.lock().unwrap().extend(ln);
+    });
+    // fixture
+    let path = repo_root().join("font-test-data/test_data/ttf/avar2checker.ttf");
+    match std::fs::read(&path) {
+        Ok(bytes) => {
+            let font = FontRef::new(&bytes).expect("avar2checker parses");
+            let axes: Vec<(i32, i32, i32)> = font.fvar().and_then(|f| f.axes()).map(|a| a.iter().map(|x| (x.min_value().to_bits(), x.default_value().to_bits(), x.max_value().to_bits())).collect()).unwrap_or_default();
+            let per_axis: Vec<Vec<i32>> = axes
+                .iter()
+                .map(|(mn, df, mx)| {
+                    let mut v = if axes.len() > 3 { vec![*mn, *df, *mx] } else { vec![*mn, ((*mn as i64 + *df as i64) / 2) as i32, *df, ((*df as i64 + *mx as i64) / 2) as i32, *mx] };
+                    v.sort();
+                    v.dedup();
+                    v
+                })
+                .collect();
+            let total: usize = per_axis.iter().map(|v| v.len()).product();
+            run.count("c5.fixture_axes", axes.len() as u64);
+            for c in 0..total {
+                let mut x = c;
+                let user: Vec<i32> = per_axis
+                    .iter()
+                    .map(|v| {
+                        let u = v[x % v.len()];
+                        x /= v.len();
+                        u
+                    })
+                    .collect();
+                evals.fetch_add(1, std::sync::atomic::Ordering::Relaxed);
+                let case = json!({"kind":"norm_avar2_fixture","user":user});
+                match guard(|| check_avar2_location(&font, &user, "avar2checker.ttf")) {
+                    Ok(Ok((got, pr))) => {
+                        if pr {
+                            past.fetch_add(1, std::sync::atomic::Ordering::Relaxed);
+                        }
+                        let d = digest_of(&("avar2fixture", &user, &got));
+                        all.lock().unwrap().insert(d);
+                        non.lock().unwrap().insert(d);
+                    }
+                    Ok(Err((id, details))) => {
+                        if id.starts_with("harness") {
+                            run.machinery_error(&format!("{id}: {details}"));
+                        } else {
+                            run.violation(&id, &details, case)
+                        }
+                    }
+                    Err(p) => run.violation(&format!("Fvar::user_to_normalized panic: {}", p.kind()), &p.message, case),
+                }
+            }
+            run.count("c5.fixture_locations", total as u64);
+        }
+        Err(e) => run.machinery_error(&format!("cannot read avar2checker.ttf: {e}")),
+    }
+    let n = evals.load(std::sync::atomic::Ordering::Relaxed);
+    run.evals(n);
+    run.trans(n);
+    run.count("c5.evaluations", n);
+    run.count("c5.locations_where_v_plus_delta_reaches_2", past.load(std::sync::atomic::Ordering::Relaxed));
+    run.observe_many(&all.into_inner().unwrap(), &non.into_inner().unwrap());
+}
+
 pub fn replay(run: &Run, case: &Value) {
     match case["kind"].as_str().unwrap_or("") {
         "metrics_gvar" => gvar_metrics(run),
         "norm_two_axes" => multi_axis(run),
         "metrics_mvar" => mvar_metrics(run),
+        "norm_avar2_extremes" | "norm_avar2_fixture" => avar2_extremes(run),
         "index_map" => {
             let (ib, ob) = (case["inner_bits"].as_u64().unwrap_or(1) as u32, case["outer_bits"].as_u64().unwrap_or(1) as u32);
             let pairs = index_pairs(ib, ob);
